@@ -275,6 +275,91 @@ pub fn drive(log: &mut Log) {
         do_read(log, d, &data, "rt", "none");
     }
 
+    // (a4) comment lines with arbitrary content (TAB, unbalanced double quotes, `##gff-version 3`,
+    // `###`, very long), first / between / last, all dialects: "comment lines are skipped"
+    for _ in 0..log.opts.n(150, 1500) {
+        case += 1;
+        if !log.mine(case) {
+            continue;
+        }
+        let mut rng = Rng::new(seed, 133, case);
+        let d = DIALECTS[(case % 3) as usize];
+        if !log.begin("comment", json!({"dialect": d})) {
+            continue;
+        }
+        let recs: Vec<Rec> = (0..rng.range(1, 4)).map(|_| rand_rec(&mut rng, d, log)).collect();
+        let data = match do_write(log, d, &recs, false) {
+            Some(x) => x,
+            None => continue,
+        };
+        for _ in 0..2 {
+            let (bytes_c, wh) = with_comments(&mut rng, &data);
+            for w in wh {
+                log.oblige(w);
+            }
+            log.oblige("gff_comment_arbitrary_content");
+            let mut a = mode_json("rtc", &bytes_c, "comments");
+            a["base"] = bytes(&data);
+            log.call("read", a, || {
+                let mut rd = Reader::new(&bytes_c[..], gtype(d));
+                json!({"recs": Value::Array(read_items(&mut rd))})
+            });
+        }
+    }
+
+    // (a5) exhaustive "CSV-hostile" strings (length <= 3 over { " \\ ' # % ; = , space }): as plain
+    // columns (all of them) and, where the dialect's quantifier allows them (no delimiter of the
+    // dialect, no double quote, no leading space, no quote at either end), as attribute key / value
+    {
+        let hs = hostile_strings();
+        for d in DIALECTS.iter() {
+            let dl: &[u8] = if *d == "gff3" { b"=;,\"" } else { b" ;\"" };
+            for (ci, chunk) in hs.chunks(20).enumerate() {
+                case += 1;
+                if !log.mine(case) {
+                    continue;
+                }
+                if !log.opts.thorough() && (ci as u64 + seed) % 3 != 0 {
+                    continue; // quick: a third of the chunks per dialect, rotating with the seed
+                }
+                let mut rng = Rng::new(seed, 134, case);
+                if !log.begin("hostile", json!({"dialect": d})) {
+                    continue;
+                }
+                let recs: Vec<Rec> = chunk
+                    .iter()
+                    .map(|h| {
+                        let mut r = rand_rec(&mut rng, d, log);
+                        r.source = h.clone();
+                        r.ftype = rng.pick(&hs).clone();
+                        r.seqname = if h[0] == b'#' { b"s".to_vec() } else { h.clone() };
+                        let ok_atom = !h.iter().any(|b| dl.contains(b))
+                            && h[0] != b' '
+                            && h[0] != b'\''
+                            && h[h.len() - 1] != b'\'';
+                        r.attrs = if ok_atom {
+                            log.oblige("gff_hostile_attribute_atom");
+                            vec![(b"k".to_vec(), vec![h.clone(), b"v".to_vec()]), (h.clone(), vec![b"w".to_vec()])]
+                        } else {
+                            vec![]
+                        };
+                        // a key equal to "k" would merge the two entries
+                        if r.attrs.len() == 2 && r.attrs[1].0 == b"k".to_vec() {
+                            r.attrs.pop();
+                        }
+                        r
+                    })
+                    .collect();
+                log.oblige("csv_hostile_exhaustive");
+                let data = match do_write(log, d, &recs, true) {
+                    Some(x) => x,
+                    None => continue,
+                };
+                do_read(log, d, &data, "rt", "none");
+            }
+        }
+    }
+
     // (a3) the file based API: the abstract state of a path is the file content. Write R1 with
     // Writer::to_file, read it with Reader::from_file, write a SHORTER R2 to the same path, read:
     // exactly R2; then an empty list, then a longer one.
